@@ -72,6 +72,9 @@ type Msg struct {
 	// an attachment, an embed), then Reset(), then the content of this spec; 2 = the decoy was also rendered once
 	// before the Reset (a Msg re-used in a loop)
 	Recycle int `json:"recycle,omitempty"`
+	// Grow: history — the message is rendered while it is still smaller and completed afterwards: 1 = rendered once
+	// when only the body parts are there (embeds and attachments follow), 2 = additionally once more after the embeds
+	Grow int `json:"grow,omitempty"`
 }
 
 // Hooks lets a check wrap every content producer.
@@ -340,7 +343,13 @@ func Build(s Msg, h *Hooks) (*mail.Msg, error) {
 			}
 		}
 	}
+	if s.Grow > 0 {
+		_, _ = m.WriteTo(io.Discard)
+	}
 	mkFiles("embed", s.Embeds, false)
+	if s.Grow > 1 {
+		_, _ = m.WriteTo(io.Discard)
+	}
 	mkFiles("attach", s.Attach, true)
 	if s.ReAdd {
 		m.UnsetAllEmbeds()
@@ -406,6 +415,9 @@ func (s Msg) Describe() string {
 	}
 	if s.Recycle != 0 {
 		fmt.Fprintf(&b, " recycled-msg=%d", s.Recycle)
+	}
+	if s.Grow != 0 {
+		fmt.Fprintf(&b, " rendered-while-growing=%d", s.Grow)
 	}
 	return b.String()
 }
